@@ -39,6 +39,7 @@ type Faults struct {
 	WriteErrAt     int  // the k-th Write call fails (and every later one)
 	WriteShort     bool // the failing write first accepts half of its bytes
 	FailAfterRead  int  // after this many bytes were read every Read and Write fails
+	ReadErrOnceAt  int  // the k-th Read call fails (nothing is delivered by it), every other read succeeds
 	WriteErrOnceAt int  // the k-th Write call fails (nothing is written), every other write succeeds
 	Timeout        bool // the injected failures are of the timeout kind (net.Error with Timeout() == true): an expired deadline, persistent like the others
 }
@@ -66,6 +67,10 @@ type Conn struct {
 	// RemoteOverride, when set before the connection is handed to the server, is what RemoteAddr reports (a
 	// *net.TCPAddr / *net.UnixAddr as a real listener would)
 	RemoteOverride net.Addr
+	// LocalOverride likewise for LocalAddr; CloseErr is what Close reports (the connection is closed all the same)
+	LocalOverride net.Addr
+	CloseErr      error
+	onceDone      bool
 
 	segs   []segment
 	eof    bool
@@ -116,6 +121,11 @@ func (c *Conn) Read(p []byte) (int, error) {
 	for {
 		if c.closed {
 			return 0, net.ErrClosed
+		}
+		if c.F.ReadErrOnceAt > 0 && c.Reads == c.F.ReadErrOnceAt && !c.onceDone {
+			c.onceDone = true
+			c.cond.Broadcast()
+			return 0, c.injected()
 		}
 		if c.failed || (c.F.ReadErrAt > 0 && c.Reads >= c.F.ReadErrAt) ||
 			(c.F.FailAfterRead > 0 && c.BytesRead >= int64(c.F.FailAfterRead)) {
@@ -213,10 +223,15 @@ func (c *Conn) Close() error {
 	c.CloseCalls++
 	c.closed = true
 	c.cond.Broadcast()
-	return nil
+	return c.CloseErr
 }
 
-func (c *Conn) LocalAddr() net.Addr { return c.Local }
+func (c *Conn) LocalAddr() net.Addr {
+	if c.LocalOverride != nil {
+		return c.LocalOverride
+	}
+	return c.Local
+}
 func (c *Conn) RemoteAddr() net.Addr {
 	if c.RemoteOverride != nil {
 		return c.RemoteOverride
